@@ -1066,6 +1066,13 @@ func (eng *Engine) ifaceContract(t types.Type, method string) *Contract {
 			return c
 		}
 	}
+	// (pkg.*).Method: any interface type of that package
+	tk := typeKey(t)
+	if i := strings.LastIndex(tk, "."); i > 0 {
+		if c := eng.ifaceContracts["("+tk[:i]+".*)."+method]; c != nil {
+			return c
+		}
+	}
 	return nil
 }
 
